@@ -174,6 +174,11 @@ int __wrap_pthread_create(pthread_t* t, const pthread_attr_t* a, void* (*fn)(voi
     rec_create(a, fn, arg);
     const int r = r_creates[create_calls < n_creates ? create_calls : n_creates - 1];
     ++create_calls;
+    if (r) {
+      // like glibc, which stores the handle before the thread is cloned: after a failure *t holds a value that means
+      // nothing (POSIX: its contents are undefined then)
+      memset(t, 0x5A, sizeof(*t));
+    }
     if (!r) {
       ++fake_started;
       fake_stack = a ? attr_stack[attr_id(a)] : FAKE_DEFAULT_STACK; // the stack THIS call's attributes carry
